@@ -1748,6 +1748,10 @@ impl proto::Peer for Peer {
             })?);
         } else if is_connect && has_protocol {
             malformed!("malformed headers: missing path in extended CONNECT");
+        } else if !is_connect {
+            // Every request but CONNECT carries a :path; without an :authority
+            // the URI would otherwise come out empty and pass for valid.
+            malformed!("malformed headers: missing path");
         }
 
         b = b.uri(parts);
